@@ -23,6 +23,8 @@ import ExoModel.Lemmas.StorageBind
 import ExoModel.Lemmas.StorageSinkIf
 import ExoModel.Lemmas.StorageSink
 import ExoModel.Lemmas.StorageExpand
+import ExoModel.Lemmas.StorageDims
+import ExoModel.Lemmas.StorageReorderAlloc
 
 set_option linter.unusedSectionVars false
 namespace Exo.C01S
@@ -587,5 +589,150 @@ theorem expand_dim_out_of_range_unsound :
     stores 3 before and 6 after the expansion -/
 theorem expand_dim_stride_unsound : ¬ BlockRefW ExpandExamples.beforeS ExpandExamples.afterS :=
   ExpandExamples.expand_dim_stride_unsound
+
+/-! ## Part 5 — dimension rewrites of a local buffer: ONE theorem `reindex_local` and its instances
+
+`x : T[sh] ; rest`  ↦  `x : T[sh'] ; rest[x[idx] ↦ x[φ idx]]` (shape `Rw.reindexDim sh' ρ`,
+ExoModel/RewriteReindex.lean).  `ReidxSyn φ f`: the syntactic map `φ` computes the integer map `f`
+on evaluated index tuples.  `ReidxGeom ds ds' m m' f D`: `f` maps the in-bounds tuples of the old
+dense layout whose cell satisfies `D` to in-bounds tuples of the new layout, injectively on cells.
+`AccIn N D t`: every access of the dynamic footprint `t` to buffer `N` hits a cell in `D`. -/
+
+/-- **`reindex_local`**: if the original block runs, the re-indexed block runs and ends — after the
+    block is left — in the same state.  One-directional (`Fwd`): an out-of-bounds tuple may have an
+    in-bounds image (`mult_dim`: `j = c`), so the converse is false.
+    `_partial`: the guard `Rw.reidxGuard` excludes window expressions of `x`, `stride(x, _)`, `x`
+    (or an element) as a call argument or window right-hand side, `x` in index / control
+    expressions, re-binding of `x`.  Calls, `if`, `for`, allocations, windows of other buffers,
+    configuration reads / writes are covered (callee bodies run in identity mode). -/
+theorem reindex_local_partial {V : Type} [DataAlg V] (ext : String → List V → V)
+    (x : Sym) (sh sh' : List Expr) (ρ : Rw.Reidx) (f : List Int → List Int) (rest : List Stmt)
+    (σ : State V) (hvo : ViewsOk σ) (hg : Rw.reidxGuard x rest = true) (hsyn : ReidxSyn ρ.idx f)
+    (szs szs' : List Int) (hsz : evalCs σ sh = .ok szs) (hsz' : evalCs σ sh' = .ok szs')
+    (hpos' : checkSizes szs' = .ok ()) (D : Int → Prop)
+    (hgeo : ReidxGeom (denseDims szs) (denseDims szs') (szs.foldl (· * ·) 1).toNat
+      (szs'.foldl (· * ·) 1).toNat f D)
+    (hacc : AccIn σ.heap.length D (Fp.evL ext (.alloc x sh :: rest) σ)) :
+    Fwd Eq (execB ext (.alloc x sh :: rest) σ) (execB ext (.alloc x sh' :: Rw.reidxL x ρ rest) σ) :=
+  reindex_fwd_partial ext x sh sh' ρ f rest σ hvo hg hsyn szs szs' hsz hsz' hpos' D hgeo hacc
+
+/-- … as a refinement between well-scoped states (the semantic side condition asked for every
+    well-scoped state in which the original block runs) -/
+theorem reindex_local_ref_partial (x : Sym) (sh sh' : List Expr) (ρ : Rw.Reidx)
+    (f : List Int → List Int) (rest : List Stmt) (hg : Rw.reidxGuard x rest = true)
+    (hsyn : ReidxSyn ρ.idx f) (hsem : ReidxSem x sh sh' f rest) :
+    BlockRefW (.alloc x sh :: rest) (.alloc x sh' :: Rw.reidxL x ρ rest) :=
+  reindex_refW_partial x sh sh' ρ f rest hg hsyn hsem
+
+/-- non-vacuity: a 2×3 buffer filled by a double loop, transposed to 3×2 -/
+example : BlockRefW ReidxExamples.before ReidxExamples.after := ReidxExamples.ex_refW
+
+/-- `divide_dim` (`DoDivideDim`, shape `Rw.divideDim d q`): `i ↦ (i / q, i % q)`; no cell moves.
+    Side condition: `q > 0` and the extent of dimension `d` is divisible by `q` in every state
+    (`Check_IsDivisible`). -/
+theorem divide_dim_partial (x : Sym) (sh : List Expr) (d : Nat) (q : Int) (rest : List Stmt)
+    (hq : 0 < q) (hg : Rw.reidxGuard x rest = true)
+    (hdiv : ∀ (V : Type) (σ : State V) (szs : List Int), evalCs σ sh = .ok szs →
+      ∃ n, szs[d]? = some n ∧ n % q = 0) :
+    BlockRefW (.alloc x sh :: rest)
+      (.alloc x (Rw.divideShape d q sh) :: Rw.reidxL x ⟨Rw.divideIdx d q, id, id⟩ rest) :=
+  divide_dim_refW_partial x sh d q rest hq hg hdiv
+
+/-- `mult_dim` (`DoMultiplyDim`, shape `Rw.multDim hi lo`): `(i, j) ↦ c*i + j` with `c` the literal
+    extent of dimension `lo`; ANY positions `hi ≠ lo`.  No semantic side condition. -/
+theorem mult_dim_partial (x : Sym) (sh : List Expr) (hi lo : Nat) (c : Int) (rest : List Stmt)
+    (hne : hi ≠ lo) (hhi : hi < sh.length) (hlo : sh[lo]? = some (.lit (.int c)))
+    (hg : Rw.reidxGuard x rest = true) :
+    BlockRefW (.alloc x sh :: rest)
+      (.alloc x (Rw.multShape hi lo sh) :: Rw.reidxL x ⟨Rw.multIdx hi lo c, id, id⟩ rest) :=
+  mult_dim_refW_partial x sh hi lo c rest hne hhi hlo hg
+
+/-- `rearrange_dim` (`DoRearrangeDim`, shape `Rw.rearrangeDim perm`): a permutation of the
+    dimensions.  No semantic side condition. -/
+theorem rearrange_dim_partial (x : Sym) (sh : List Expr) (perm : List Nat) (rest : List Stmt)
+    (hp : Rw.isPermVec perm sh.length = true) (hg : Rw.reidxGuard x rest = true) :
+    BlockRefW (.alloc x sh :: rest)
+      (.alloc x (Rw.permList perm sh) ::
+        Rw.reidxL x ⟨Rw.permList perm, Rw.permList perm, Rw.permDim perm⟩ rest) :=
+  rearrange_dim_refW_partial x sh perm rest hp hg
+
+/-- `resize_dim(fold = False)` (`DoResizeDim`, shape `Rw.resizeDim d size off`), LITERAL offset `ov`:
+    `i ↦ i - ov`.  Semantic side conditions (`Check_IsPositiveExpr`, `Check_Bounds`): `size`
+    positive, every accessed cell has `0 ≤ i - ov < size` in dimension `d` (on the dynamic
+    footprint of the original run). -/
+theorem resize_dim_partial (x : Sym) (sh : List Expr) (d : Nat) (size : Expr) (ov : Int)
+    (rest : List Stmt) (hg : Rw.reidxGuard x rest = true)
+    (hsem : ∀ (V : Type) [DataAlg V] (ext : String → List V → V) (σ o : State V) (szs : List Int),
+      ViewsOk σ → execB ext (.alloc x sh :: rest) σ = .ok o → evalCs σ sh = .ok szs →
+      ∃ sv, evalC σ size = .ok sv ∧ 0 < sv ∧
+        AccIn σ.heap.length (ReidxInst.resizeD szs d ov sv) (Fp.evL ext (.alloc x sh :: rest) σ)) :
+    BlockRefW (.alloc x sh :: rest)
+      (.alloc x (Rw.resizeShape d size sh) ::
+        Rw.reidxL x ⟨Rw.resizeIdx d (Rw.litI ov), Rw.resizeWin d (Rw.litI ov), id⟩ rest) :=
+  resize_dim_refW_partial x sh d size ov rest hg hsem
+
+/-- the guarded shapes of the real primitives, anywhere in a procedure (no semantic hypothesis left:
+    `divideDimChecked` asks for a literal extent, which `Rw.divideDim` itself tests for divisibility) -/
+theorem dim_rewrites_in_procedure_partial (path : Rw.Path) (nm : String) (args : List FnArg)
+    (preds : List Expr) (body body' : List Stmt) :
+    (∀ d q, Rw.rewriteAt (Rw.divideDimChecked d q) path body = some body' →
+      EquivOn WellScoped (fun _ => False) (.mk nm args preds body) (.mk nm args preds body')) ∧
+    (∀ hi lo, Rw.rewriteAt (Rw.multDimChecked hi lo) path body = some body' →
+      EquivOn WellScoped (fun _ => False) (.mk nm args preds body) (.mk nm args preds body')) ∧
+    (∀ perm, Rw.rewriteAt (Rw.rearrangeDimChecked perm) path body = some body' →
+      EquivOn WellScoped (fun _ => False) (.mk nm args preds body) (.mk nm args preds body')) :=
+  ⟨fun d q h => divide_dim_anywhere_partial d q path nm args preds body body' h,
+   fun hi lo h => mult_dim_anywhere_partial hi lo path nm args preds body body' h,
+   fun perm h => rearrange_dim_anywhere_partial perm path nm args preds body body' h⟩
+
+def dT : Sym := ⟨"t", 3⟩
+def dA : Sym := ⟨"a", 1⟩
+def dY : Sym := ⟨"y", 2⟩
+def dI : Sym := ⟨"i", 4⟩
+/-- `t : R[8] ; for i in 0..8: t[i] = a[i] ; y[0] = t[5]` -/
+def dimBefore : List Stmt :=
+  [.alloc dT [.lit (.int 8)],
+   .loop dI (.lit (.int 0)) (.lit (.int 8)) [.assign dT [.read dI []] (.read dA [.read dI []])] false,
+   .assign dY [.lit (.int 0)] (.read dT [.lit (.int 5)])]
+
+def dimAfter : List Stmt :=
+  [.alloc dT [.lit (.int 2), .lit (.int 4)],
+   .loop dI (.lit (.int 0)) (.lit (.int 8))
+     [.assign dT [.binop .div (.read dI []) (.lit (.int 4)), .binop .mod (.read dI []) (.lit (.int 4))]
+        (.read dA [.read dI []])] false,
+   .assign dY [.lit (.int 0)]
+     (.read dT [.binop .div (.lit (.int 5)) (.lit (.int 4)), .binop .mod (.lit (.int 5)) (.lit (.int 4))])]
+
+theorem dim_example : Rw.divideDimChecked 0 4 dimBefore = some dimAfter := by rfl
+
+example : BlockRefW dimBefore dimAfter := Rw.divideDimChecked_sound 0 4 _ _ dim_example
+
+/-! ## Part 6 — `reorder_stmts` when one of the two statements is an allocation (`AllocCommutes`) -/
+
+/-- `x : T[sh] ; s`  ≈  `s ; x : T[sh]` in both directions, when `s` defines nothing, does not
+    mention `x`, and the extents evaluate the same before and after `s` (`Stg.ExtentsStable`; implied
+    by `sh.all Expr.cfgFree`).  Moving the allocation UP needs nothing else (a fresh buffer is
+    refined by anything); moving it DOWN uses the frame lemma `Stg.execS_untouched` (a statement that
+    does not mention `x` leaves the buffer untouched). -/
+theorem reorder_stmts_alloc (x : Sym) (sh : List Expr) (s : Stmt) (rest : List Stmt)
+    (hd : s.isDef = false) (hx : ∀ y ∈ s.names, y ≠ x) (hst : Stg.ExtentsStable s sh) :
+    BlockRefW (s :: .alloc x sh :: rest) (.alloc x sh :: s :: rest) ∧
+    BlockRefW (.alloc x sh :: s :: rest) (s :: .alloc x sh :: rest) :=
+  ⟨Stg.reorder_alloc_up_refW x sh s rest hd hx hst, Stg.reorder_alloc_down_refW x sh s rest hd hx hst⟩
+
+/-- the shape `Rw.reorderStmts` under `Rw.reorderAllocGuard`, anywhere in a procedure.  (Two
+    allocations are excluded: swapping them permutes buffer ids.) -/
+theorem reorder_stmts_alloc_in_procedure (path : Rw.Path) (nm : String) (args : List FnArg)
+    (preds : List Expr) (body body' : List Stmt)
+    (h : Rw.rewriteAt Rw.reorderStmtsAlloc path body = some body') :
+    EquivOn WellScoped (fun _ => False) (.mk nm args preds body) (.mk nm args preds body') :=
+  reorder_stmts_alloc_anywhere path nm args preds body body' h
+
+example : Rw.reorderStmtsAlloc Stg.Ex.prog = some Stg.Ex.prog' := by rfl
+
+/-- `x ∉ s.names` is needed, in both directions -/
+theorem reorder_stmts_alloc_needs_notMentioned :
+    ¬ BlockRefW Stg.Ex.cexDown Stg.Ex.cexDown' ∧ ¬ BlockRefW Stg.Ex.cexDown' Stg.Ex.cexDown :=
+  ⟨Stg.Ex.reorder_alloc_down_needs_notMentioned, Stg.Ex.reorder_alloc_up_needs_notMentioned⟩
 
 end Exo.C01S
